@@ -59,6 +59,10 @@ LexLines(f) ==
         p \in PosNots(f), q \in PosNots(f) \ {"hms"}},
     {Region("line", "", <<T(p, PosRaw(p, 1)), T("plain", -20500), T("plain", 151250), T(q, PosRaw(q, 2))>>, NoProps, FALSE) : p \in PosNots(f), q \in PosNots(f) \ {"hms"}},
     {Region("point", sg, <<T(p, PosRaw(p, 1)), T(q, PosRaw(q, 2))>>, [color |-> "red"], FALSE) : p \in PosNots(f), q \in PosNots(f) \ {"hms"}, sg \in {"", "+"}},
+    (* properties that are not carried (line=, ruler=) are dropped; the properties written after them on the line are kept *)
+    {Region("line", "", <<T("plain", 150250), T("plain", -20500), T("plain", 151250), T("plain", -20000)>>, kv, FALSE) :
+        kv \in {[line |-> "0 0", text |-> "arrow", tag |-> "t9"], [line |-> "1 0", width |-> "3", text |-> "one head"], [line |-> "0 0"]}},
+    {Region("circle", "", <<T("plain", 150250), T("plain", -20500), T("plain", 1500)>>, [ruler |-> "fk5 degrees", text |-> "ruled", width |-> "2"], FALSE)},
     (* text in {} "" '' is kept verbatim: delimiter characters of the other kinds are ordinary characters *)
     {Region(sh, "", IF sh = "text" THEN <<T("plain", 150250), T("plain", -20500)>> ELSE <<T("plain", 150250), T("plain", -20500), T("plain", 1500)>>,
             [text |-> v], FALSE) : sh \in {"text", "circle"}, v \in TextVals} }
